@@ -19,7 +19,7 @@ func init() {
 	register(&CheckDef{
 		ID:    "C19",
 		Level: "exploration",
-		Rule: "a real primary and a real replica (simulated network; static leaser, or the simulated lease service so that 'no primary known' exists), each with the real ProxyServer handler in front of a stub application reached through the proxy's own http.Transport over in-memory pipes. The stub records every request it receives together with the position of the tracked database at arrival, and on a write request on the primary commits a transaction (PagerSim) before it answers. Seeded requests: method (GET, HEAD, POST, PUT, PATCH, DELETE, OPTIONS) x path (plain, matching a passthrough pattern, matching an always-forward pattern, /litefs/health) x cookie (absent, malformed, behind, equal, ahead by 1-3) x node (primary, replica, replica that knows no primary) x replication timing (the primary commits the awaited transaction before / during / after the proxy's poll time-out; the replica connected or partitioned). Oracles: a read with a valid cookie T reaches the application only when the local position is >= T at arrival, otherwise it ends with 504 not earlier than the poll time-out and the application never sees it; a non-read on a replica that does not match a passthrough pattern never reaches the local application and is answered with 'fly-replay: instance=<primary>' or 503 without a known primary; an always-forward GET is treated like a write; passthrough requests always reach the application; the cookie set after a write on the primary names a TXID >= the transaction the application committed for that request. evaluations = requests; distinct = distinct (role, method class, path class, cookie class, timing, outcome) tuples; non-trivial = run with >= 1 read that had to wait for replication and >= 1 redirected write",
+		Rule:  "a real primary and a real replica (simulated network; static leaser, or the simulated lease service so that 'no primary known' exists), each with the real ProxyServer handler in front of a stub application reached through the proxy's own http.Transport over in-memory pipes. The stub records every request it receives together with the position of the tracked database at arrival, and on a write request on the primary commits a transaction (PagerSim) before it answers. Seeded requests: method (GET, HEAD, POST, PUT, PATCH, DELETE, OPTIONS) x path (plain, matching a passthrough pattern, matching an always-forward pattern, /litefs/health) x cookie (absent, malformed, behind, equal, ahead by 1-3) x node (primary, replica, replica that knows no primary) x replication timing (the primary commits the awaited transaction before / during / after the proxy's poll time-out; the replica connected or partitioned). Oracles: a read with a valid cookie T reaches the application only when the local position is >= T at arrival, otherwise it ends with 504 not earlier than the poll time-out and the application never sees it; a non-read on a replica that does not match a passthrough pattern never reaches the local application and is answered with 'fly-replay: instance=<primary>' or 503 without a known primary; an always-forward GET is treated like a write; passthrough requests always reach the application; the cookie set after a write on the primary names a TXID >= the transaction the application committed for that request. evaluations = requests; distinct = distinct (role, method class, path class, cookie class, timing, outcome) tuples; non-trivial = run with >= 1 read that had to wait for replication and >= 1 redirected write",
 		Run:   runC19,
 		NonTrivial: func(r *Run) bool {
 			return r.Stats["c19.read.waited"] > 0 || r.Stats["c19.write.redirected"] > 0
@@ -189,9 +189,20 @@ func runC19(r *Run) {
 	rep := r.NewNode(NodeCfg{Candidate: false, Tune: tune})
 	p.Cfg.Client, rep.Cfg.Client = net.Attach(p), net.Attach(rep)
 	var svc *SimLease
+	var q *Node // a second candidate, for the change of primary at the end
 	if dynamic {
 		svc = NewSimLease(r, 2*time.Second, 500*time.Millisecond)
 		p.Cfg.Leaser, rep.Cfg.Leaser = svc.Leaser(p), svc.Leaser(rep)
+		if t.Chance(1, 2) {
+			tune2 := func(s *litefs.Store) {
+				s.ReconnectDelay = 20 * time.Millisecond
+				s.DemoteDelay = 300 * time.Millisecond
+			}
+			p.Cfg.Tune = tune2
+			q = r.NewNode(NodeCfg{Candidate: true, Tune: tune2})
+			q.Cfg.Client = net.Attach(q)
+			q.Cfg.Leaser = svc.Leaser(q)
+		}
 	} else {
 		p.Cfg.Leaser = litefs.NewStaticLeaser(true, p.Name, p.URL())
 		rep.Cfg.Leaser = litefs.NewStaticLeaser(false, p.Name, p.URL())
@@ -459,4 +470,124 @@ func runC19(r *Run) {
 	}
 	h.closeConns()
 	_ = strings.TrimSpace
+	if q != nil && !r.Failed() && p.Store.IsPrimary() {
+		c19PrimaryChange(r, t, svc, p, q, hp, app, dbName)
+	}
+}
+
+// c19PrimaryChange: the node in front of which the proxy runs stops being the
+// primary - it is demoted and another candidate takes over; in one variant it
+// then wins the lease once more but the promotion fails at the lease service's
+// next answer and the other node is elected again. From then on the node is a
+// replica (the lease service's record says who the primary is): a write that
+// reaches its proxy must not be handed to the local application, it is
+// redirected to the primary (or refused with 503 while none is known).
+func c19PrimaryChange(r *Run, t *Tape, svc *SimLease, p, q *Node, hp http.Handler, app *c19app, dbName string) {
+	failedPromotion := t.Chance(1, 2)
+	nreq := t.Range(1, 4)
+	if err := q.Open(); err != nil {
+		r.Inconclusive("second candidate: %v", err)
+		return
+	}
+	pdb := p.Store.DB(dbName)
+	if pdb == nil || !waitPos(q, dbName, pdb.Pos(), 10*time.Second) {
+		r.Inconclusive("second candidate did not follow")
+		return
+	}
+	holder := func() int { n, _ := svc.Holder(); return n }
+	waitFor := func(d time.Duration, cond func() bool) bool {
+		for dl := time.Now().Add(d); time.Now().Before(dl); time.Sleep(10 * time.Millisecond) {
+			if cond() {
+				return true
+			}
+		}
+		return cond()
+	}
+	p.Store.Demote()
+	if !waitFor(20*time.Second, func() bool { return holder() == q.ID && q.Store.IsPrimary() }) {
+		r.Inconclusive("the second candidate did not take over")
+		return
+	}
+	r.Count("c19.primary-change")
+	if failedPromotion {
+		// q steps down, p is elected, p's promotion fails at the next answer of
+		// the lease service, p cannot reach the service for a moment, q is elected
+		svc.mu.Lock()
+		svc.FailClusterID[p.ID] = 1
+		svc.DownAfterClusterIDFail = true
+		svc.mu.Unlock()
+		q.Store.Demote()
+		consumed := waitFor(10*time.Second, func() bool {
+			svc.mu.Lock()
+			defer svc.mu.Unlock()
+			return svc.FailClusterID[p.ID] == 0
+		})
+		svc.mu.Lock()
+		svc.FailClusterID[p.ID] = 0
+		svc.DownAfterClusterIDFail = false
+		svc.Down[p.ID] = true
+		svc.mu.Unlock()
+		// (p stays cut off from the lease service - a partition - while the
+		// requests below arrive; whether q is elected or nobody is, the record
+		// says that p is not the primary once its session has run out)
+		ok := waitFor(8*time.Second, func() bool { return holder() == q.ID && q.Store.IsPrimary() })
+		defer func() {
+			svc.mu.Lock()
+			delete(svc.Down, p.ID)
+			svc.mu.Unlock()
+		}()
+		if !ok && holder() == p.ID {
+			return // p holds the lease after all: not this scenario
+		}
+		// (if nobody was elected the lease record still says that p is not the
+		// primary: the requests below are judged by the record)
+		if consumed {
+			r.Count("c19.failed-promotion")
+		}
+	}
+	// p learns of the primary (a correct node needs a moment; one that still
+	// believes it is the primary never does - the requests below tell)
+	waitFor(2*time.Second, func() bool {
+		_, info := p.Store.PrimaryInfo()
+		return info != nil && info.Hostname == q.Name
+	})
+	for i := 0; i < nreq && !r.Failed(); i++ {
+		if holder() == p.ID {
+			return // (p is the primary again: not this scenario)
+		}
+		id := fmt.Sprintf("pc%d", i)
+		method := []string{"POST", "PUT", "PATCH", "DELETE"}[t.Next(4)]
+		req, _ := http.NewRequest(method, "http://proxy/api/items", http.NoBody)
+		req.RequestURI = "/api/items"
+		req.Header.Set("X-Req", id)
+		app.mu.Lock()
+		seenBefore := len(app.seen)
+		app.mu.Unlock()
+		w := newSimResp()
+		hp.ServeHTTP(w, req)
+		if holder() == p.ID {
+			return
+		}
+		app.mu.Lock()
+		reached := false
+		for k := seenBefore; k < len(app.seen); k++ {
+			if app.seen[k].id == id {
+				reached = true
+			}
+		}
+		app.mu.Unlock()
+		isPrimary, info := p.Store.PrimaryInfo()
+		desc := fmt.Sprintf("%s /api/items on %s after %s took over as primary (failed promotion of the former in between: %v; %s reports isPrimary=%v, primary=%v) => %d, fly-replay %q, application saw it: %v", method, p.Name, q.Name, failedPromotion, p.Name, isPrimary, info, w.code, w.hdr.Get("fly-replay"), reached)
+		r.Logf("%s", desc)
+		if !r.Check(!reached, "c19.write-on-replica", "%s: a write reached the application on a node that is not the primary", desc) {
+			return
+		}
+		fr := w.hdr.Get("fly-replay")
+		r.Check(fr != "" || w.code == http.StatusServiceUnavailable, "c19.write-redirect", "%s: want a redirect to the primary or 503", desc)
+		if holder() == q.ID && fr != "" {
+			r.Check(fr == "instance="+q.Name, "c19.write-redirect", "%s: the primary is %s", desc, q.Name)
+		}
+		r.Count("c19.write.redirected-after-change")
+		r.State("primary-change/%v/%s/%d", failedPromotion, method, w.code)
+	}
 }
